@@ -213,3 +213,10 @@ Definition axis_index_code (ix : axis_index) : list Z :=
   end.
 Definition normidx_case_ok (c : list Z * Z * list Z) : bool :=
   let '(idx, n, impl) := c in list_z_eqb (axis_index_code (normalize_axis idx n)) impl.
+
+(* ---- n-d plumbing cases (K2): _collapse_axis(_move_reduce_dims_to_end(arr, axis), len(axis)) on arr = arange(N).reshape(shape) ---- *)
+From Flox Require Import NdShape.
+Definition plumb_case_ok (c : list nat * list nat * list nat * list Z) : bool :=
+  let '(shp, axis, ishape, idata) := c in
+  let b := plumb Z (-1) axis (mkNd shp (map Z.of_nat (seq 0 (nprod shp)))) in
+  list_z_eqb (map Z.of_nat (shape b)) (map Z.of_nat ishape) && list_z_eqb (data b) idata.
